@@ -322,6 +322,21 @@ for _ in range(CASES):
     check("np.clip(p, 0, 1) == p exactly for the points inside",
           all((c_[i] == p_[i]).all() == inside[i] for i in range(len(p_))),
           f"{p_}")
+# the two polar-decomposition facts the Angle round-trip lemma takes as
+# hypotheses (numerically, to 1e-9), and x % m for a positive modulus
+for _ in range(CASES):
+    r_ = float(rng.uniform(1e-3, 50))
+    phi = float(rng.uniform(-np.pi + 1e-9, np.pi))
+    check("arctan2(r sin p, r cos p) = p and sqrt((r cos p)^2 + "
+          "(r sin p)^2) = r for r > 0, p in (-pi, pi]",
+          abs(np.arctan2(r_ * np.sin(phi), r_ * np.cos(phi)) - phi) < 1e-9
+          and abs(np.sqrt((r_ * np.cos(phi)) ** 2 + (r_ * np.sin(phi)) ** 2)
+                  - r_) < 1e-9 * r_, f"r={r_} phi={phi}")
+    m_ = float(rng.uniform(0.1, 10))
+    v_ = float(rng.uniform(-m_, m_))
+    check("x % m in [0, m); = x on [0, m), = x + m on [-m, 0)",
+          0 <= v_ % m_ < m_ and abs(v_ % m_ - (v_ if v_ >= 0 else v_ + m_))
+          < 1e-12, f"{v_} % {m_}")
 for w in ("t", "logt", "LogT", "T", "LOGT", "Logit", "x_Y"):
     check("str.lower is idempotent and fixes lower-case strings",
           w.lower().lower() == w.lower() and
